@@ -84,17 +84,33 @@ Definition ids_to_classes (pool : list rule) (ids : list Z) : option (list Z) :=
   let rs := flat_map (fun z => match find_by_id (Z.to_N z) pool with Some r => [r] | None => [] end) ids in
   if (length rs =? length ids)%nat then Some (map zN (classes rs)) else None.
 
-Fixpoint agree_lists (pool : list rule) (ops : list mcmd) (model obs : list (list Z)) : bool :=
+(** rules a command hands to the manager *)
+Definition offered (pool : list rule) (x : mcmd) : list rule :=
+  match x with
+  | CLoadAll ixs | CLoadRes _ ixs => pick pool ixs
+  | CAppend ix => pick pool [ix]
+  | _ => []
+  end.
+(** a call is tainted when one of its rules is equal to, but identified differently from, a rule
+    of this call or of any earlier call of the case.  The rule sets hash the id and compare
+    without it, so whether two such rules count as one element depends on the hash layout of
+    the run; return values of tainted calls are not asserted (rule sets are compared under rule
+    equality and stay asserted). *)
+Definition tainted (seen rs : list rule) : bool :=
+  existsb (fun a => existsb (fun b => rule_eqb a b && negb (r_id a =? r_id b)) (rs ++ seen)) rs.
+
+Fixpoint agree_lists_from (seen : list rule) (pool : list rule) (ops : list mcmd) (model obs : list (list Z)) : bool :=
   match ops, model, obs with
   | [], [], [] => true
   | x :: ops', mo :: model', ob :: obs' =>
       (match x with
        | CGetAll | CGetRes _ | CEnforced _ =>
            match ids_to_classes pool ob with Some cl => zlist_eqb mo cl | None => false end
-       | _ => match mo with [(-5)%Z] => true | _ => zlist_eqb mo ob end
-       end) && agree_lists pool ops' model' obs'
+       | _ => match mo with [(-5)%Z] => true | _ => tainted seen (offered pool x) || zlist_eqb mo ob end
+       end) && agree_lists_from (offered pool x ++ seen) pool ops' model' obs'
   | _, _, _ => false
   end.
+Definition agree_lists := agree_lists_from [].
 
 Definition agree (co : mcase * list Z) : bool :=
   let c := fst co in
